@@ -115,6 +115,7 @@ type stepper struct {
 	tick         int64
 	cfg          vgirpc.ProofConfig
 	stressRounds int
+	usedNonce    map[string]bool
 }
 
 func randString(rng *rand.Rand, n int) string {
@@ -141,6 +142,7 @@ func (s *stepper) Begin(b replay.Behaviour, rng *rand.Rand) error {
 	}
 	a := b[0].Args
 	s.rng = rng
+	s.usedNonce = nil
 	s.skew = replay.Int(a, "Skew")
 	s.sub = int64(replay.Int(a, "Sub"))
 	s.burstN = replay.Int(a, "BurstN")
@@ -351,8 +353,27 @@ func other(k string) string {
 
 func replaceAt(s string, i int, c string) string { return s[:i] + c + s[i+1:] }
 
-// token renders proof p in form f. hdrVals are the header lines to add.
-func (s *stepper) token(p proofC, f map[string]any) (hdrVals []string) {
+// freshNonce draws a well-formed nonce that no proof of the behaviour carries and that
+// was not presented before in this behaviour.
+func (s *stepper) freshNonce() string {
+	for {
+		n := randString(s.rng, 22)
+		if s.usedNonce == nil {
+			s.usedNonce = map[string]bool{}
+			for _, q := range s.proofs {
+				s.usedNonce[q.nonce] = true
+			}
+		}
+		if !s.usedNonce[n] {
+			s.usedNonce[n] = true
+			return n
+		}
+	}
+}
+
+// token renders proof p in form f. next is the next proof of the palette (the
+// owner of the nonce of class "nother"). hdrVals are the header lines to add.
+func (s *stepper) token(p proofC, next proofC, f map[string]any) (hdrVals []string) {
 	rng := s.rng
 	hdr := replay.Str(f, "hdr")
 	if hdr == "none" {
@@ -387,6 +408,10 @@ func (s *stepper) token(p proofC, f map[string]any) (hdrVals []string) {
 		nonce = pick(rng, nonce+"A", "A"+nonce, nonce+nonce)
 	case "ncharset":
 		nonce = replaceAt(nonce, rng.Intn(22), pick(rng, "+", "/", "=", "~", " ", "*", "@", "\x00"))
+	case "nfresh":
+		nonce = s.freshNonce()
+	case "nother":
+		nonce = next.nonce
 	}
 	ownKid := s.kidName[p.kid]
 	kid := ownKid
@@ -641,7 +666,7 @@ func (s *stepper) Step(i int, st replay.Step) (replay.Obs, error) {
 		s.setClock(int64(replay.Int(st.Args, "now")))
 		p := s.proofs[replay.Int(st.Args, "p")-1]
 		n := replay.Int(st.Args, "n")
-		vals := s.token(p, map[string]any{"hdr": "one"})
+		vals := s.token(p, p, map[string]any{"hdr": "one"})
 		before := s.innerCalls.Load()
 		passed, note := s.burst(s.gate, vals, n)
 		innerDelta := s.innerCalls.Load() - before
@@ -662,7 +687,7 @@ func (s *stepper) Step(i int, st replay.Step) (replay.Obs, error) {
 				}
 				m := n
 				fresh := proofC{ts: p.ts, nonce: randString(s.rng, 22), kid: p.kid}
-				got, _ := s.burst(g, s.token(fresh, map[string]any{"hdr": "one"}), m)
+				got, _ := s.burst(g, s.token(fresh, fresh, map[string]any{"hdr": "one"}), m)
 				if got != 1 {
 					obs["admitted"] = got
 					obs["__note__"] = fmt.Sprintf("stress round %d on a fresh gate: %d of %d concurrent presentations of one fresh proof admitted", r, got, m)
@@ -677,8 +702,9 @@ func (s *stepper) Step(i int, st replay.Step) (replay.Obs, error) {
 			return nil, fmt.Errorf("%s without a gate", st.A)
 		}
 		s.setClock(int64(replay.Int(st.Args, "now")))
-		p := s.proofs[replay.Int(st.Args, "p")-1]
-		vals := s.token(p, replay.Map(st.Args, "f"))
+		pi := replay.Int(st.Args, "p")
+		p := s.proofs[pi-1]
+		vals := s.token(p, s.proofs[pi%len(s.proofs)], replay.Map(st.Args, "f")) // OtherP(p) = p % NProofs + 1
 		before := s.innerCalls.Load()
 		ctx, err := s.gate(request(vals))
 		pass, answer := s.classify(ctx, err)
